@@ -238,7 +238,10 @@ def check(ctx):
     from opcua_tools import ua_data_types as T
     # a fixed corpus that runs first: values that compare equal but must be written differently (anything keyed by == would confuse them)
     corpus = [T.UADouble(-0.0), T.UADouble(0.0), T.UAFloat(0.0), T.UAFloat(-0.0), T.UADouble(1), T.UADouble(1.0), T.UAEURange(low=-0.0, high=0.0), T.UAEURange(low=0.0, high=-0.0),
-              T.UAVariant(T.UADouble(0.0)), T.UAVariant(T.UADouble(-0.0))]
+              T.UAVariant(T.UADouble(0.0)), T.UAVariant(T.UADouble(-0.0)),
+              # the interpreter-wide NaN object and other NaN objects (a table keyed by a NaN finds it by identity only)
+              T.UADouble(math.nan), T.UAFloat(math.nan), T.UADouble(float("nan")), T.UAVariant(T.UADouble(math.nan)), T.UAEURange(low=0.0, high=math.nan),
+              T.UADouble(math.inf), T.UADouble(-math.inf), T.UAFloat(math.inf)]
     n_rand = 350 if ctx.quick() else 8000
     for i in range(len(corpus) + n_rand):
         v = corpus[i] if i < len(corpus) else gen(rng)
